@@ -65,6 +65,10 @@ class CaseTimeout(Exception):
 
 @contextlib.contextmanager
 def time_limit(seconds: int):
+    # the limits written at the call sites are what a case may take on an idle machine; on a loaded one (many checks
+    # side by side) a case may run much longer without anything being wrong: the alarm is set generously, a genuine
+    # non-termination is still reported, just later
+    seconds = int(seconds * float(os.environ.get('VERIF_TIME_FACTOR', '6')))
     def handler(signum, frame):
         raise CaseTimeout('case exceeded %d s' % seconds)
     old = signal.signal(signal.SIGALRM, handler)
